@@ -42,6 +42,11 @@ CLAIMED = {
         "Trusted: exact rational arithmetic (vcore). One known finding (positional output truncated at ~231 characters for values below radix^-200).",
         "property-based testing against an exact-arithmetic error-bound oracle",
     ),
+    "C09": (
+        "For every compiled writer (12 integer types x every radix format; f32/f64 x core, write-flag, syntax and prebuilt formats): generated values x generated valid write options (max/min digits up to 2000, exponent breaks over the whole i32 range incl. i32::MIN/MAX, round mode, trim, punctuation, special strings) x buffer lengths {bound, bound+1, bound+7} and lengths below the bound (0, generated, bound-1, written-1, written), every buffer being a guard-page slice of exactly that length in both placements inside supervised worker processes; release and debug-assertion builds. Monitor/oracle: the bound evaluates, no panic with len >= bound, returned slice is a prefix within the bound, short buffers succeed in-slice or panic, canaries intact, no fault.",
+        "Trusted: kernel page protection, crash attribution via the shared progress record; specials with a disabled string are excluded (documented panic); bounds above 8 GiB skipped.",
+        "property-based testing under a memory-fault / panic monitor (guard pages + supervised subprocesses) with the documented bound as oracle",
+    ),
     "C10": (
         "For every valid compiled format x every compiled type x {parse, parse_partial}, in release and in debug-assertion+overflow-check builds: all strings up to length 3 (thorough 4) over the per-format alphabet and generated inputs (valid numbers under insert/delete/duplicate/replace/truncate/splice mutations, arbitrary bytes, inputs padded to KiBs; lossy / no_multi_digit toggled). Every input sits in a guard-page buffer of exactly its length, once flush with the trailing and once with the leading PROT_NONE page, inside a supervised worker process. Monitor: the call returns (catch_unwind, worker survives, 20 s watchdog), count <= len, error index <= len.",
         "Trusted: the kernel's page protection; attribution of a worker death to the last case recorded in a shared mapping. A read outside the slice that stays in mapped memory away from both guards is not visible (ASan/Miri are not part of this check).",
